@@ -81,7 +81,7 @@ func (c *Check) Judge(ok bool, key, pos, okDetail, badDetail string) {
 func (c *Check) Stat(name string, n int) { c.Stats[name] += n }
 
 func (c *Check) At(in ssa.Instruction) string { return c.P.InstrPos(in) }
-func (c *Check) AtFn(fn *ssa.Function) string  { return c.P.Pos(fn.Pos()) }
+func (c *Check) AtFn(fn *ssa.Function) string { return c.P.Pos(fn.Pos()) }
 
 func runProp(p *Prog, def *PropDef, tier string, only string) *Check {
 	c := &Check{Prop: def, Tier: tier, P: p, Stats: map[string]int{}, perRule: map[string]int{}}
@@ -299,7 +299,7 @@ func finish(c *Check, start time.Time, seed int, extra map[string]interface{}, s
 	}
 	ev := evidenceFile{PropertyID: c.Prop.ID, Tier: c.Tier, Seed: seed, Level: "other", Coverage: cov,
 		Assumptions: append([]string{"Go type checker and golang.org/x/tools go/ssa v0.29.0 are correct", "third-party and standard-library callees behave as documented; they are classified by reviewed tables, their bodies are not analysed"}, c.Prop.Assumptions...),
-		WallS: time.Since(start).Seconds(), Violations: nViol}
+		WallS:       time.Since(start).Seconds(), Violations: nViol}
 	b, _ := json.MarshalIndent(ev, "", " ")
 	if err := os.WriteFile(filepath.Join(evDir, c.Prop.ID+".json"), b, 0o644); err != nil {
 		fmt.Printf("ERROR writing evidence: %v\n", err)
